@@ -57,6 +57,18 @@ pub fn run_case(env: &Env, ctx: &mut Ctx, idx: u64) {
         }
         _ => {}
     }
+    // keywords directives that only the preprocessor's own parse of the raw text sees (branch not taken):
+    // the preprocessed text has none of them, so they must not matter to either mode
+    if rng.chance(1, 8) {
+        let pre = *rng.pick(&[
+            "`ifdef ZQ_UNDEF\n`begin_keywords \"1364-2001\"\n`endif\n",
+            "`ifdef ZQ_UNDEF\n`begin_keywords \"1364-1995\"\n`begin_keywords \"1364-2005\"\n`endif\n",
+            "`ifndef ZQ_UNDEF\n`else\n`begin_keywords \"1364-2001-noconfig\"\n`endif\n",
+            "`ifdef ZQ_UNDEF\n`end_keywords\n`begin_keywords \"1800-2005\"\n`endif\n",
+        ]);
+        inp.text = format!("{}{}", pre, inp.text);
+        ctx.count("inputs_with_keywords_directive_in_dead_branch", 1);
+    }
     ctx.count("inputs", 1);
     let src = inp.text.clone();
     let gram = inp.gram;
